@@ -138,6 +138,57 @@ def runDoh (method0 dv bh ras cas wh u rs impl : String) : Ans :=
           { model := model, verdict := verdict, tags := tags }
     | _, _, _, _ => { model := "bad-op", verdict := "skip" }
 
+/-- the model's conversion of a `doh` sub-op (outer `none`: not judgeable — bad op or the oracle speaks about other bytes) -/
+def dohConv (method0 dv bh ras cas wh u rs : String) : Option (Option Msg) :=
+  let method := if method0 == "-" then "" else method0
+  match parseVals dv, bytesOfHex bh, parseIp ras, parseIp cas with
+  | some dnsVals, some body, some ra, some ca =>
+    match (if wh == "=" then some body else bytesOfHex wh) with
+    | none => none
+    | some w =>
+      let orc : Option Msg := if u == "E" then none else parseMsg u
+      let miss := match unpackInputC method dnsVals (splitBody body rs) with
+        | some x => x != w
+        | none => false
+      if miss || (u != "E" && orc.isNone) then none
+      else some (requestToDnsMsgC (fun _ => orc) method dnsVals (splitBody body rs) ra ca)
+  | _, _, _, _ => none
+
+/-- op `fx <secure> <path> <retryMax> <script> <ttls>;<doh op>` -/
+def runFx (hdr sub impl : String) : Ans :=
+  match hdr.splitOn " ", sub.splitOn " " with
+  | [sec, pathHex, rmax, script, ttls], "doh" :: method0 :: dv :: bh :: ras :: cas :: wh :: u :: rest =>
+    let rs := rest.headD "-"
+    match bytesOfHex pathHex, rmax.toNat?, natList ttls, dohConv method0 dv bh ras cas wh u rs with
+    | some path, some retryMax, some tt, some conv =>
+      let matched := path == "/dns-query".toUTF8.toList
+      let sc := if script == "-" then [] else script.toList
+      let (res, sends) := dohHandler matched (sec == "1") conv sc retryMax
+      let fwd := if sends == 0 then "-" else "same"
+      let model := match res with
+        | .goon => "goon - sends=0 fwd=- - - body=-"
+        | .resp 200 => "resp 200 sends=" ++ toString sends ++ " fwd=" ++ fwd ++ " application/dns-message max-age=" ++
+            toString (getTTL tt) ++ " body=same"
+        | .resp c => "resp " ++ toString c ++ " sends=" ++ toString sends ++ " fwd=" ++ fwd ++ " - - body=-"
+      let verdict :=
+        if impl == model then "ok"
+        else match impl.splitOn " ", model.splitOn " " with
+          | [a, b, c, d, _, f, g], [a', b', c', d', _, f', g'] =>
+            if a != a' || b != b' then "FAIL:handler-status"
+            else if c != c' then "FAIL:retry-count"
+            else if d != d' then "FAIL:forwarded-differs"
+            else if f != f' then "FAIL:response-ttl"
+            else if g != g' then "FAIL:response-body"
+            else "FAIL:response"
+          | _, _ => "FAIL:result"
+      { model := model, verdict := verdict
+        tags := ["fx"] ++ (if sends > 0 then ["nt"] else []) ++ (if sends > 1 then ["retried"] else []) ++
+          (match res with
+            | .goon => ["goon"]
+            | .resp c => ["s" ++ toString c]) }
+    | _, _, _, _ => { model := "skip", verdict := "skip", tags := ["fx-skip"] }
+  | _, _ => { model := "bad-op", verdict := "skip" }
+
 def runOne (op impl : String) : Ans :=
   match op.splitOn " " with
   | ["rsp", an, _ns, _ex, pl] =>
@@ -168,7 +219,11 @@ def runBatch (ops impls : List String) : Ans :=
     tags := ["batch"] ++ (rs.flatMap (·.tags)).eraseDups }
 
 def run (op impl : String) : Ans :=
-  if op.startsWith "bat " then runBatch ((op.drop 4).toString.splitOn ";") (impl.splitOn ";")
+  if op.startsWith "fx " then
+    match (op.drop 3).toString.splitOn ";" with
+    | [h, sub] => runFx h sub impl
+    | _ => { model := "bad-op", verdict := "skip" }
+  else if op.startsWith "bat " then runBatch ((op.drop 4).toString.splitOn ";") (impl.splitOn ";")
   else runOne op impl
 
 end BfeVerif.C56
